@@ -51,10 +51,33 @@ fn case<S: Shape>(r: &mut Rng, acc: &mut Acc, index: u64, verbose: bool) {
         spec.repeat = Rep::Times(*r.pick(&[2u32, 5, 17, 64]));
     }
     let subst: Option<Vec<f64>> = if r.chance(1, 2) { Some(S::KINDS.iter().map(|k| gen_value(r, *k)).collect()) } else { None };
-    let mut tl = S::build_tl(&spec);
-    if let Some(v) = &subst {
-        tl.start_with(&S::from_vals(v));
+    // one quarter of the cases: a merged timeline of two components with disjoint property sets and
+    // independent timing (the statement quantifies over all timelines); `owner[f]` = component of field f
+    let merged = S::N_ANIM >= 2 && r.chance(1, 4);
+    let mut specs = vec![spec.clone()];
+    if merged {
+        let mut other = gen_tl(r, kinds, &opts);
+        other.kfs.sort_by(|a, b| a.pos.total_cmp(&b.pos));
+        for f in 0..S::N_ANIM {
+            for k in specs[0].kfs.iter_mut() {
+                if f % 2 == 1 { k.vals[f] = None; }
+            }
+            for k in other.kfs.iter_mut() {
+                if f % 2 == 0 { k.vals[f] = None; }
+            }
+        }
+        specs.push(other);
     }
+    let owner = |f: usize| if merged { f % 2 } else { 0 };
+    let single = if merged { None } else { Some(S::build_tl(&specs[0])) };
+    let multi = if merged { Some(crate::shapes::build_merged::<S>(&specs)) } else { None };
+    let (mut single, mut multi) = (single, multi);
+    if let Some(v) = &subst {
+        if let Some(t) = single.as_mut() { t.start_with(&S::from_vals(v)) }
+        if let Some(t) = multi.as_mut() { t.start_with(&S::from_vals(v)) }
+    }
+    let mut times: Vec<(f32, &'static str)> = Vec::new();
+    for spec in &specs {
     let (c, d) = (spec.cycle, spec.delay);
     let ks: Vec<u32> = match spec.repeat {
         Rep::None | Rep::Times(0) => vec![0],
@@ -68,7 +91,7 @@ fn case<S: Shape>(r: &mut Rng, acc: &mut Acc, index: u64, verbose: bool) {
     ps.sort_by(|a, b| a.total_cmp(b));
     ps.dedup();
     // (time, label)
-    let mut times: Vec<(f32, &'static str)> = vec![(-1.0, "before"), (0.0, "before"), (next_down(d), "before"), (d, "at-delay")];
+    times.extend_from_slice(&[(-1.0, "before"), (0.0, "before"), (next_down(d), "before"), (d, "at-delay")]);
     for &k in &ks {
         for &p in &ps {
             if spec.reverse {
@@ -88,29 +111,41 @@ fn case<S: Shape>(r: &mut Rng, acc: &mut Acc, index: u64, verbose: bool) {
             times.push((t, "after-end"));
         }
     }
+    }
     let case = |t: f32, f: usize, clause: &str| {
         case_json(STREAM, index, vec![
-            ("shape", J::s(S::NAME)), ("timeline", spec.json()),
+            ("shape", J::s(S::NAME)), ("timeline", J::A(specs.iter().map(|s| s.json()).collect())), ("merged", J::B(merged)),
             ("start_with", subst.as_ref().map(|v| J::A(v.iter().map(|x| J::F(*x)).collect())).unwrap_or(J::Null)),
             ("t", J::F(t as f64)), ("t_bits", J::U(t.to_bits() as u64)), ("field", J::s(S::FIELDS[f])), ("clause", J::s(clause)),
         ])
     };
-    let frs: Vec<_> = (0..S::N_ANIM).map(|f| frames(&spec, f)).collect();
+    let frs: Vec<_> = (0..S::N_ANIM).map(|f| frames(&specs[owner(f)], f)).collect();
     let mut terminal: Vec<Option<u64>> = vec![None; S::N_ANIM];
     let mut sampled = false;
     for (t, label) in times {
         if !t.is_finite() {
             continue;
         }
-        let m = mscale_spec(&spec, t as f64);
         let mut target = S::default();
         for i in 0..S::n() {
             target.set(i, 33.0);
         }
-        tl.update(&mut target, t);
+        match (&single, &multi) {
+            (Some(tl), _) => tl.update(&mut target, t),
+            (_, Some(tl)) => tl.update(&mut target, t),
+            _ => unreachable!(),
+        }
         for f in 0..S::N_ANIM {
+            let spec = &specs[owner(f)];
+            let m = mscale_spec(spec, t as f64);
+            let total = spec.total();
             let fr = &frs[f];
             if fr.is_empty() {
+                continue;
+            }
+            if m.phase == Phase::Active && t >= 1.0e8 {
+                // an "after the end" probe time of another merged component: far outside the exact
+                // regime of this (still running) component
                 continue;
             }
             let kind = S::KINDS[f];
@@ -182,7 +217,7 @@ fn case<S: Shape>(r: &mut Rng, acc: &mut Acc, index: u64, verbose: bool) {
             if nontrivial {
                 let kc = if m.k == 0 { "k0" } else if m.k < 4 { "k1-3" } else { "k-large" };
                 let pc = if m.p == 0.0 { "p0" } else if m.p == 1.0 { "p1" } else { "interior" };
-                acc.sig(format!("{}|{}|{kc}|{clause}|{}|{pc}|{label}", spec.repeat.class(), spec.reverse, if kind.is_int() { "int" } else { "float" }));
+                acc.sig(format!("{}|{}|{kc}|{clause}|{}|{pc}|{label}|merged={merged}", spec.repeat.class(), spec.reverse, if kind.is_int() { "int" } else { "float" }));
                 if !sampled {
                     sampled = true;
                     acc.sample(3, || case(t, f, clause));
